@@ -191,7 +191,8 @@ func registerSched() {
 		},
 		RuleText: genRule + "Online monitor plugin (last plugin of the last tier): after every Allocate/Deallocate event of every action and solver simulation, after OpenSession and after each action, nodes (closed forms + rebuild with NewNodeInfo/AddTask), workloads, pod sets, queues and vector==structured are recomputed from the pods. Non-trivial: a case whose sessions saw >= 20 events including Releasing and Pipelined transitions. " +
 			"About 35% of the cases carry Dynamic Resource Allocation objects (gen/dra.go) and run with the DRA feature gate on; oracle claim-accounting (mon/dra.go) compares, at the same points, the DRA manager's view (assume cache, in-flight allocations, the allocator's allocated-device set) with what the pods imply: a pod holding a place on a node holds its claims (allocated, reserved for it, devices on its node, the API object's devices while it is a consumer there), nobody else keeps a claim allocated, no device is in two claims, device set == union of the claims' devices.",
-		Assume: []string{"claim-accounting: a really terminating or finished pod may still be a consumer; the claim of an in-flight BindRequest whose pod was evicted in the session is not judged (the manager cannot withdraw an in-flight allocation); devices are node-local, one non-GPU device class",
+		Assume: []string{"claim-accounting: a really terminating or finished pod may still be a consumer; the claim of an in-flight BindRequest whose pod was evicted in the session is not judged (the manager cannot withdraw an in-flight allocation); devices are node-local and requested by exact count",
+			"GPU-class claims (gen/dra_gpu.go, about 12-15% of the cases): on nodes without device-plugin GPUs a ResourceSlice of a GPU driver adds its devices to the node's GPU capacity, a generated (template) claim of a GPU device class adds its count to the pod's GPU request; the rule 'name contains gpu' is the scheduler's documented one and is restated by the oracle. Oracle dra-gpu-request recomputes every pod's DRA GPU count from its claims (API objects) and compares with PodInfo.ResReq and, for placed pods, AcceptedResource; node GPU capacity is recomputed from node object + slices; on such nodes the gpu field of Idle/Releasing is judged by the linear closed forms and by the rebuild (AddDRAGPUs as the snapshot does); workload and queue accounting charge DRA GPUs like whole GPUs. GPU claims referenced by name (they need a queue label), shared GPU claims and AllocationMode All are not generated",
 			"whole-GPU Idle/Releasing are compared against a node rebuilt with the system's own constructor in snapshot order (reservation pods, non-pipelined, pipelined); skipped when a GPU group holds only pipelined pods (insertion order legitimately matters)",
 			"queue Request is only checked implicitly (it is not updated by events)"}})
 	run.Register(&SchedCheck{Id: "C13", Profile: "accounting", Quick: 800, Thorough: 6000,
